@@ -254,7 +254,19 @@ struct Exec {
     // is a read-only anonymous mapping (zero pages); chunk and decrypted copy are lazily mapped.  Thorough tier, once per
     // binary.  Head and tail of the chunk are compared with the documented construction (keystream blocks 2.. of the
     // chunk's ChaCha20-IETF stream); the authenticator is checked by the round trip.
+    static bool machine_has_room_for_giant_chunks() {
+        // two of these operations (8 GiB of touched pages each) can run at the same time: only on machines with 32 GiB or more
+        // (total memory, a constant of the machine, so that the decision is the same in every re-execution)
+        static int cached = -1;
+        if (cached < 0) {
+            cached = 0;
+            FILE *f = fopen("/proc/meminfo", "r");
+            if (f) { unsigned long long kb = 0; if (fscanf(f, "MemTotal: %llu kB", &kb) == 1 && kb >= 32ULL * 1024 * 1024) cached = 1; fclose(f); }
+        }
+        return cached == 1;
+    }
     void do_giant_msg(const Op &op) {
+        if (!machine_has_room_for_giant_chunks()) { res.count("probe.giant_message_skipped_small_machine"); return; }
         size_t mlen = ((size_t) 1 << 32) + 5 + (op.mlen % 200);
         unsigned char *m = (unsigned char *) mmap(nullptr, mlen, PROT_READ, MAP_PRIVATE | MAP_ANONYMOUS | MAP_NORESERVE, -1, 0);
         unsigned char *c = (unsigned char *) mmap(nullptr, mlen + 17, PROT_READ | PROT_WRITE, MAP_PRIVATE | MAP_ANONYMOUS | MAP_NORESERVE, -1, 0);
